@@ -156,16 +156,20 @@ def placeOp (noiseSim : Bool) (be : Backend) (np : Nat) (op : COp) (k : Nat) : E
     else if op.n0 == .replace then .ok [.replace k]
     else .error .value
 
+/-- the `for op in seq` loop, operation numbers starting at `k` -/
+def traceGo (noiseSim : Bool) (be : Backend) (np : Nat) : List COp → Nat → Except Err (List Act)
+  | [], _ => .ok []
+  | op :: rest, k =>
+    match placeOp noiseSim be np op k with
+    | .ok a =>
+      match traceGo noiseSim be np rest (k + 1) with
+      | .ok b => .ok (a ++ b)
+      | .error e => .error e
+    | .error e => .error e
+
 /-- trace of the whole `compile` loop (stops at the first exception, like the Python) -/
 def compileTrace (noiseSim : Bool) (be : Backend) (np : Nat) (ops : List COp) : Except Err (List Act) :=
-  let rec go (l : List COp) (k : Nat) (acc : List Act) : Except Err (List Act) :=
-    match l with
-    | [] => .ok acc
-    | op :: rest =>
-      match placeOp noiseSim be np op k with
-      | .ok a => go rest (k + 1) (acc ++ a)
-      | .error e => .error e
-  go ops 0 []
+  traceGo noiseSim be np ops 0
 
 /-! ## 3. Stabilizer mixtures -/
 
@@ -274,43 +278,49 @@ def uniformMeas (q : Nat) (det : Bool) (m : Mixture) : Bool :=
 
 def setRec (r : List Nat) (c : Nat) (v : Nat) : List Nat := r.set c v
 
+def stabMap1 (n q : Nat) (f : Tab → Tab) (s : StabSt) : Except Err StabSt :=
+  if q < n then .ok { s with mix := Mix.mapTab f s.mix } else .error .assertion
+
+def stabMap2 (n q1 q2 : Nat) (f : Tab → Tab) (s : StabSt) : Except Err StabSt :=
+  if q1 < n ∧ q2 < n then .ok { s with mix := Mix.mapTab f s.mix } else .error .assertion
+
+/-- measure `q1` in every branch, apply `f` to the branches whose outcome is 1, optionally reset `q1`, record `outcomes[0]` -/
+def stabClassical (n q1 q2 c : Nat) (det : Bool) (f : Tab → Tab) (reset : Bool) (s : StabSt) : Except Err StabSt :=
+  if q1 < n ∧ q2 < n then
+    let mo := Mix.measure q1 det s.mix
+    let m2 := Mix.conditioned f mo.2 mo.1
+    let m3 := if reset then Mix.mapTab (fun t => t.resetZ q1 false det) m2 else m2
+    .ok { mix := m3, creg := setRec s.creg c (if mo.2.headD false then 1 else 0)
+          lossMeas := s.lossMeas || Mix.total s.mix != 1
+          nonUniform := s.nonUniform || !uniformMeas q1 det s.mix }
+  else .error .assertion
+
+def stabMeasZ (n q1 c : Nat) (det : Bool) (s : StabSt) : Except Err StabSt :=
+  if q1 < n then
+    let mo := Mix.measure q1 det s.mix
+    .ok { mix := mo.1, creg := setRec s.creg c (if mo.2.headD false then 1 else 0)
+          lossMeas := s.lossMeas || Mix.total s.mix != 1
+          nonUniform := s.nonUniform || !uniformMeas q1 det s.mix }
+  else .error .assertion
+
 /-- `StabilizerCompiler.compile_one_gate` on the mixture (a plain `Stabilizer` is the one-branch case) -/
 def stabGate (np n : Nat) (det : Bool) (op : COp) (s : StabSt) : Except Err StabSt :=
   let q1 := qIndex np op.r1 op.t1
   let q2 := qIndex np op.r2 op.t2
-  let chk1 (f : Tab → Tab) : Except Err StabSt :=
-    if q1 < n then .ok { s with mix := Mix.mapTab f s.mix } else .error .assertion
-  let chk2 (f : Tab → Tab) : Except Err StabSt :=
-    if q1 < n ∧ q2 < n then .ok { s with mix := Mix.mapTab f s.mix } else .error .assertion
-  let classical (f : Tab → Tab) (reset : Bool) : Except Err StabSt :=
-    if q1 < n ∧ q2 < n then
-      let (m1, outs) := Mix.measure q1 det s.mix
-      let m2 := Mix.conditioned f outs m1
-      let m3 := if reset then Mix.mapTab (fun t => t.resetZ q1 false det) m2 else m2
-      .ok { mix := m3, creg := setRec s.creg op.c (if outs.headD false then 1 else 0)
-            lossMeas := s.lossMeas || Mix.total s.mix != 1
-            nonUniform := s.nonUniform || !uniformMeas q1 det s.mix }
-    else .error .assertion
   match op.kind with
   | .input | .output | .identity => .ok s
-  | .h => chk1 (·.hGate q1)
-  | .s => chk1 (·.sGate q1)
-  | .sdg => chk1 (·.sdgGate q1)
-  | .x => chk1 (·.xGate q1)
-  | .y => chk1 (·.yGate q1)
-  | .z => chk1 (·.zGate q1)
-  | .cnot => chk2 (·.cnotGate q1 q2)
-  | .cz => chk2 (·.czGate q1 q2)
-  | .ccnot => classical (·.xGate q2) false
-  | .ccz => classical (·.zGate q2) false
-  | .mcr => classical (·.xGate q2) true
-  | .measZ =>
-    if q1 < n then
-      let (m1, outs) := Mix.measure q1 det s.mix
-      .ok { mix := m1, creg := setRec s.creg op.c (if outs.headD false then 1 else 0)
-            lossMeas := s.lossMeas || Mix.total s.mix != 1
-            nonUniform := s.nonUniform || !uniformMeas q1 det s.mix }
-    else .error .assertion
+  | .h => stabMap1 n q1 (·.hGate q1) s
+  | .s => stabMap1 n q1 (·.sGate q1) s
+  | .sdg => stabMap1 n q1 (·.sdgGate q1) s
+  | .x => stabMap1 n q1 (·.xGate q1) s
+  | .y => stabMap1 n q1 (·.yGate q1) s
+  | .z => stabMap1 n q1 (·.zGate q1) s
+  | .cnot => stabMap2 n q1 q2 (·.cnotGate q1 q2) s
+  | .cz => stabMap2 n q1 q2 (·.czGate q1 q2) s
+  | .ccnot => stabClassical n q1 q2 op.c det (·.xGate q2) false s
+  | .ccz => stabClassical n q1 q2 op.c det (·.zGate q2) false s
+  | .mcr => stabClassical n q1 q2 op.c det (·.xGate q2) true s
+  | .measZ => stabMeasZ n q1 op.c det s
   | .param => .error .runtime
 
 def stabAct (np n : Nat) (det : Bool) (ops : Array COp) (s : StabSt) : Act → Except Err StabSt
@@ -411,53 +421,51 @@ def dmAct (np n : Nat) (det : Bool) (ops : Array COp) (s : DmSt) : Act → Excep
 
 /-! ## 5. `compile` -/
 
-/-- `StabilizerCompiler.compile`: operation by operation, the placement tree decides the actions -/
-def compileStab (noiseSim : Bool) (ne np nc : Nat) (det : Bool) (ops : List COp) : Except Err StabSt :=
-  let n := ne + np
-  let arr := ops.toArray
-  let rec go (l : List COp) (k : Nat) (s : StabSt) : Except Err StabSt :=
-    match l with
-    | [] => .ok s
-    | op :: rest =>
-      if op.kind == .param then .error .runtime          -- `type(op) not in self.ops`
-      else
+def runStabActs (np n : Nat) (det : Bool) (arr : Array COp) : List Act → StabSt → Except Err StabSt
+  | [], s => .ok s
+  | a :: as, s =>
+    match stabAct np n det arr s a with
+    | .ok s' => runStabActs np n det arr as s'
+    | .error e => .error e
+
+def stabGo (noiseSim : Bool) (np n : Nat) (det : Bool) (arr : Array COp) : List COp → Nat → StabSt → Except Err StabSt
+  | [], _, s => .ok s
+  | op :: rest, k, s =>
+    if op.kind == .param then .error .runtime          -- `type(op) not in self.ops`
+    else
       match placeOp noiseSim .stab np op k with
       | .error e => .error e
       | .ok acts =>
-        let rec run (as : List Act) (s : StabSt) : Except Err StabSt :=
-          match as with
-          | [] => .ok s
-          | a :: as' =>
-            match stabAct np n det arr s a with
-            | .ok s' => run as' s'
-            | .error e => .error e
-        match run acts s with
-        | .ok s' => go rest (k + 1) s'
+        match runStabActs np n det arr acts s with
+        | .ok s' => stabGo noiseSim np n det arr rest (k + 1) s'
         | .error e => .error e
-  go ops 0 { mix := [(1, (Tab.ket0 n).norm)], creg := List.replicate nc 0 }
+
+/-- `StabilizerCompiler.compile`: operation by operation, the placement tree decides the actions -/
+def compileStab (noiseSim : Bool) (ne np nc : Nat) (det : Bool) (ops : List COp) : Except Err StabSt :=
+  let n := ne + np
+  stabGo noiseSim np n det ops.toArray ops 0 { mix := [(1, (Tab.ket0 n).norm)], creg := List.replicate nc 0 }
+
+def runDmActs (np n : Nat) (det : Bool) (arr : Array COp) : List Act → DmSt → Except Err DmSt
+  | [], s => .ok s
+  | a :: as, s =>
+    match dmAct np n det arr s a with
+    | .ok s' => runDmActs np n det arr as s'
+    | .error e => .error e
+
+def dmGo (noiseSim : Bool) (np n : Nat) (det : Bool) (arr : Array COp) : List COp → Nat → DmSt → Except Err DmSt
+  | [], _, s => .ok s
+  | op :: rest, k, s =>
+    match placeOp noiseSim .dm np op k with
+    | .error e => .error e
+    | .ok acts =>
+      match runDmActs np n det arr acts s with
+      | .ok s' => dmGo noiseSim np n det arr rest (k + 1) s'
+      | .error e => .error e
 
 def compileDM (noiseSim : Bool) (ne np nc : Nat) (det : Bool) (ops : List COp) : Except Err DmSt :=
   let n := ne + np
-  let arr := ops.toArray
   let rho0 : Mat := ⟨pow2 n, fun i j => if i = 0 ∧ j = 0 then 1 else 0⟩
-  let rec go (l : List COp) (k : Nat) (s : DmSt) : Except Err DmSt :=
-    match l with
-    | [] => .ok s
-    | op :: rest =>
-      match placeOp noiseSim .dm np op k with
-      | .error e => .error e
-      | .ok acts =>
-        let rec run (as : List Act) (s : DmSt) : Except Err DmSt :=
-          match as with
-          | [] => .ok s
-          | a :: as' =>
-            match dmAct np n det arr s a with
-            | .ok s' => run as' s'
-            | .error e => .error e
-        match run acts s with
-        | .ok s' => go rest (k + 1) s'
-        | .error e => .error e
-  go ops 0 { ρ := some rho0.norm, creg := List.replicate nc 0 }
+  dmGo noiseSim np n det ops.toArray ops 0 { ρ := some rho0.norm, creg := List.replicate nc 0 }
 
 /-- `Σ_k p_k ρ(T_k)`: the density matrix a mixture stands for -/
 def mixtureDensity (n : Nat) (m : Mixture) : Mat :=
